@@ -37,3 +37,4 @@ func Panics(f func()) bool                          { panic("symbolic only") }
 func Exits(f func()) bool                           { panic("symbolic only") }
 func Freeze(label string, xs ...any)                { panic("symbolic only") }
 func Thaw()                                         { panic("symbolic only") }
+func DeepEq(a, b any) bool                          { panic("symbolic only") }
